@@ -337,6 +337,10 @@ func genCtor(t *rapid.T) Ctor {
 	return c
 }
 
+type iterFunc func() (int, bool)
+
+func (f iterFunc) Next() (int, bool) { return f() }
+
 func drainIter(it iterator.Iterator[int], extra int) ([]int, error) {
 	out := []int{}
 	for {
@@ -464,6 +468,31 @@ func runCtor(c Ctor) (vk.Outcome, error) {
 		}
 		if c.Kind == "FromIterator" {
 			sts = append(sts, s) // nothing was consumed by the failed call
+			// the context ends WHILE a reducer is running over the stream (here: as a side effect of the k-th
+			// item being produced): the stream notices on its next call, so the reducer fails with the context's
+			// error and no more than one further item is pulled
+			if k := c.Extra; len(c.Items) > k+1 {
+				ctx2, cancel2 := sk.WithCancel(bg)
+				pulled := 0
+				it := iterFunc(func() (int, bool) {
+					if pulled >= len(c.Items) {
+						return 0, false
+					}
+					pulled++
+					if pulled == k {
+						cancel2()
+					}
+					return c.Items[pulled-1], true
+				})
+				got, err := stream.Collect(ctx2, stream.FromIterator[int](it))
+				cancel2()
+				if err != context.Canceled || got != nil {
+					return out, vk.Violf("ctx-ignored", "stream.Collect over FromIterator: the context was cancelled while item %d of %d was produced, Collect returned (%v, %v)", k, len(c.Items), got, err)
+				}
+				if pulled > k+1 {
+					return out, vk.Violf("not-lazy", "stream.Collect over FromIterator pulled %d items although its context ended at item %d", pulled, k)
+				}
+			}
 		}
 		E := sk.NewSentinel("E")
 		es := stream.Error[int](E)
